@@ -66,6 +66,16 @@ dstale = subtotal("d99_1", [99, -1], [1], anchor=2, sid=5)
 # a NEGATIVE list naming only stale / missing ids: not a difference at all, a plain subtotal of its positive part
 pstale = subtotal("p12_99", [1, 2], [99, -1], anchor="bottom", sid=6)
 
+def _first_undated(v):
+    """the same categorical-date variable with the date removed from its FIRST valid category"""
+    cats = [dict(c) for c in v.cats]
+    k = next(i for i, c in enumerate(cats) if not c.get("missing"))
+    cats[k].pop("date", None)
+    return CatVar(v.alias, cats)
+
+
+D3u = _first_undated(D3)
+
 BASES = {
     "cat3_x_cat2": (S.schema2("cat3_x_cat2", A3, B2, weighted=True), (1, 2), [{}, {"rows": [p12, d12]}, {"cols": [d12]}, {"rows": [dneg, dstale], "cols": [dneg]},
                      {"rows": [pstale, d12], "cols": [pstale]}], 2, 3),
@@ -73,6 +83,9 @@ BASES = {
     "cat3view_x_cat2": (S.schema2("cat3view_x_cat2", CatVar(A3.alias, A3.cats, view_insertions=[p12, dict(pstale)]), B2, weighted=True),
                         (1, 2), [{"rows": [d12, p12]}, {"rows": [p12, d12_3]}], 2, 3),
     "date3_x_cat2": (S.schema2("date3_x_cat2", D3, B2, weighted=True), (1, 2), [{}, {"rows": [p12, d12]}], 2, 3),
+    # a date on ANY category makes the dimension categorical-date, also when the first valid one has none
+    "date3u_x_cat2": (S.schema2("date3u_x_cat2", D3u, B2, weighted=True), (1, 2), [{}], 2, 3),
+    "date3u_1d": (Schema("date3u_1d", [D3u], [("cat", 0)], weighted=True), (1, 2), [{}], 2, 3),
     "cat2_x_date3": (S.schema2("cat2_x_date3", B2, D3), (1,), [{}, {"cols": [p12, d12, d12_3]}], 2, 3),
     "date3_x_date2": (S.schema2("date3_x_date2", D3, E2), (1,), [{}], 2, 3),
     "cat3_x_mr": (S.schema2("cat3_x_mr", A3, M2), (1,), [{}, {"rows": [d12]}], 1, 2),
